@@ -53,7 +53,10 @@ ASSUMPTIONS = [
     "corrupt cache objects are unprotected (mode 0o644): a 0o444 object in a LocalHashFileDB is trusted by design",
     "a modification that preserves inode, mtime and size (top level) or path and mtime (inside a "
     "recorded directory) is invisible to the documented token and is never generated: the harness "
-    "owns mtimes and always moves them to a value not seen before for that path",
+    "owns mtimes and always moves them to a value not seen before for that path; when a file entry is "
+    "replaced with its mtime kept and its (inode, mtime) equals the record-time pair again (inode number "
+    "recycled by ext4, or the original inode deliberately brought back) the change is token-preserving "
+    "and the entry counts as unmodified (class inode-recycled-token-preserved)",
     "hashlib and os.walk are the trusted reference",
 ]
 
